@@ -31,6 +31,7 @@ type Step struct {
 	From      string `json:"from,omitempty"` // bank send
 	To        string `json:"to,omitempty"`
 	Amount    int64  `json:"amount,omitempty"`
+	Rewrite   bool   `json:"rewrite,omitempty"` // restart: the genesis is re-written in an equivalent form before it is imported
 }
 
 type FundRec struct {
@@ -382,13 +383,21 @@ func (r *Run) Mod(op ModOp, note string) StepResult {
 	return res
 }
 
-func (r *Run) Restart() StepResult {
+// Restart: every other restart (decided by the position in the history, not by a PRNG draw)
+// imports the exported genesis re-written the way a migration script or a hand-edited host
+// genesis may have it.
+func (r *Run) Restart() StepResult { return r.RestartOpt(len(r.hist.Steps)%2 == 0) }
+
+func (r *Run) RestartOpt(rewrite bool) StepResult {
 	if expired() {
 		r.stop = true
 		return StepResult{}
 	}
-	st := Step{Kind: "restart", Desc: "zero-height restart: prepare, export, wipe the module store, import"}
-	res := r.w.Restart()
+	st := Step{Kind: "restart", Rewrite: rewrite, Desc: "zero-height restart: prepare, export, wipe the module store, import"}
+	if rewrite {
+		st.Desc += " (genesis re-written: lists reversed, disabled time of available bindings = Unix epoch)"
+	}
+	res := r.w.Restart(rewrite)
 	r.after(st, nil, res)
 	return res
 }
@@ -475,7 +484,7 @@ func Replay(a *App, h *History, mon *Mon) *Run {
 		case "modsvc":
 			r.SetModSvcBehaviour(ModSvcBehaviour(st.Behaviour))
 		case "restart":
-			r.Restart()
+			r.RestartOpt(st.Rewrite)
 		case "params":
 			pb, err := base64.StdEncoding.DecodeString(st.ParamsB64)
 			must(err)
